@@ -1,1 +1,22 @@
-From QH Require Import Bytes SocketM SockSpec.
+(* Properties_C19.v — C19: one request per connection; nothing is sent after the close. *)
+From Coq Require Import List ZArith.
+From QH Require Import Bytes SocketM SockProofs.
+
+(* for every schedule of segments / acks / peer events / application calls and every
+   application (reaction policy), headersParsed - and with it the server's routing, which is
+   the slot connected to it - happens at most once per connection *)
+Theorem C19_headers_parsed_at_most_once : forall e p ops k s,
+  (hdr_count (snd (run_ops_from e p k s ops)) <= 1)%nat.
+Proof. intros; apply headers_parsed_at_most_once. Qed.
+Print Assumptions C19_headers_parsed_at_most_once.
+
+(* once the transport has been closed no later call or event writes a byte to the client *)
+Theorem C19_silent_after_close : forall e p s ops k,
+  tcp_open s = false -> no_tx (snd (run_ops_from e p k s ops)).
+Proof. exact silent_after_close. Qed.
+Print Assumptions C19_silent_after_close.
+
+(* Socket::close() closes the transport, whatever the state *)
+Theorem C19_close_closes : forall s, tcp_open (fst (do_close s)) = false.
+Proof. exact close_closes. Qed.
+Print Assumptions C19_close_closes.
